@@ -22,6 +22,9 @@ pub struct L1Case {
     pub rt: RtShape,
     pub clone_reads: ReadScript,
     pub clone_buffers: usize,
+    /// the clone output accepts at most this many bytes per write call (0 = unlimited)
+    #[serde(default)]
+    pub max_write: u32,
 }
 
 #[derive(Clone, Debug, Serialize, Deserialize)]
@@ -101,14 +104,15 @@ pub fn classify_source(rec: &mut CaseRec, cfg: &ArchCfg, source: &[u8], h: &fmt:
         || d.chunk_descriptors.iter().any(|x| x.source_size > 1024 * 1024);
 }
 
-fn l1_roundtrip(source: Arc<Vec<u8>>, cfg: &ArchCfg, reads: &ReadScript, rt: &RtShape, clone_reads: &ReadScript, clone_buffers: usize, rec: &mut CaseRec) -> Result<fmt::Header, String> {
+fn l1_roundtrip(source: Arc<Vec<u8>>, cfg: &ArchCfg, reads: &ReadScript, rt: &RtShape, clone_reads: &ReadScript, clone_buffers: usize, max_write: usize, rec: &mut CaseRec) -> Result<fmt::Header, String> {
     let runtime = rt.build();
     let archive = runtime.block_on(l1::compress_lib(source.clone(), cfg, reads.clone(), &BTreeMap::new()))?;
     let h = check_header_records_source(&archive, &source)?;
     let archive = Arc::new(archive);
     let (reader, _log) = l1::local_reader(archive.clone(), clone_reads.clone());
-    let opts = CloneOpts { buffers: clone_buffers, ..Default::default() };
+    let opts = CloneOpts { buffers: clone_buffers, max_write, ..Default::default() };
     let rep = runtime.block_on(l1::clone_mirror(reader, &opts));
+    rec.class_if(max_write > 0, "output_accepts_partial_writes");
     rep.result.clone().map_err(|e| format!("clone failed: {} (stage {})", e, rep.stage))?;
     if rep.source_size != source.len() as u64 {
         return Err(format!("reader: total_source_size {} != {}", rep.source_size, source.len()));
@@ -129,7 +133,7 @@ fn run_l1(c: &L1Case, rec: &mut CaseRec) -> Result<(), String> {
         return Ok(());
     }
     let source = Arc::new(expand(&c.source));
-    l1_roundtrip(source, &c.cfg, &c.reads, &c.rt, &c.clone_reads, c.clone_buffers, rec).map(|_| ())
+    l1_roundtrip(source, &c.cfg, &c.reads, &c.rt, &c.clone_reads, c.clone_buffers, c.max_write as usize, rec).map(|_| ())
 }
 
 thread_local! {
@@ -167,7 +171,7 @@ fn run_corner(c: &CornerCase, rec: &mut CaseRec) -> Result<(), String> {
     }
     let cfg = ArchCfg { chunker: ChunkerCfg { algo: Algo::FixedSize, bits: 0, min: 0, max: n, window: 0 }, hash_len: c.hash_len, comp: c.comp, buffers: c.buffers };
     let source = Arc::new(src);
-    let h = l1_roundtrip(source, &cfg, &ReadScript::full(), &c.rt, &ReadScript::full(), c.buffers, rec)?;
+    let h = l1_roundtrip(source, &cfg, &ReadScript::full(), &c.rt, &ReadScript::full(), c.buffers, 0, rec)?;
     if has_corner {
         rec.class("corner_compressed_size_eq_len");
         rec.nontrivial = true;
@@ -315,8 +319,9 @@ fn l1_strategy() -> impl Strategy<Value = L1Case> {
         l1::rt_shape_strategy(),
         prop_oneof![3 => Just(ReadScript::full()), 1 => read_script_strategy()],
         buffers_strategy(),
+        prop_oneof![2 => Just(0u32), 1 => Just(1u32), 1 => 1u32..=64, 1 => Just(4096u32)],
     )
-        .prop_map(|(source, cfg, reads, rt, clone_reads, clone_buffers)| L1Case { source, cfg, reads, rt, clone_reads, clone_buffers })
+        .prop_map(|(source, cfg, reads, rt, clone_reads, clone_buffers, max_write)| L1Case { source, cfg, reads, rt, clone_reads, clone_buffers, max_write })
 }
 /// sources built around the configuration's own size landmarks (window, min, max)
 fn l1_landmark_strategy() -> impl Strategy<Value = L1Case> {
@@ -337,7 +342,7 @@ fn l1_landmark_strategy() -> impl Strategy<Value = L1Case> {
             1 => Seg::Const { b: 0, n },
             _ => Seg::Text { n, seed },
         };
-        L1Case { source: vec![seg], cfg, reads: ReadScript::full(), rt, clone_reads: ReadScript::full(), clone_buffers: 2 }
+        L1Case { source: vec![seg], cfg, reads: ReadScript::full(), rt, clone_reads: ReadScript::full(), clone_buffers: 2, max_write: (seed % 3) * 5 }
     })
 }
 fn l1_big_strategy(max_seg: u32) -> impl Strategy<Value = L1Case> {
@@ -363,6 +368,8 @@ fn l1_big_strategy(max_seg: u32) -> impl Strategy<Value = L1Case> {
             rt,
             clone_reads: ReadScript::full(),
             clone_buffers: buffers,
+            // tokio::fs::File takes at most 2 MiB per write call
+            max_write: 2 * 1024 * 1024,
         })
 }
 /// memory-hungry levels, few chunks
@@ -381,6 +388,7 @@ fn l1_heavy_strategy() -> impl Strategy<Value = L1Case> {
             rt: RtShape::current(),
             clone_reads: ReadScript::full(),
             clone_buffers: 1,
+            max_write: 0,
         }
     })
 }
@@ -417,6 +425,27 @@ pub fn l2_strategy() -> impl Strategy<Value = L2Case> {
         })
 }
 
+/// real files, chunks above tokio::fs::File's 2 MiB write buffer and above the 1 MiB refill buffer
+fn l2_big_strategy() -> impl Strategy<Value = L2Case> {
+    (
+        prop_oneof![
+            (2_100_000usize..=3_400_000).prop_map(|n| ChunkerCfg { algo: Algo::FixedSize, bits: 0, min: 0, max: n, window: 0 }),
+            Just(ChunkerCfg { algo: Algo::RollSum, bits: 15, min: 16 * 1024, max: 16 * 1024 * 1024, window: 64 }),
+            Just(ChunkerCfg { algo: Algo::BuzHash, bits: 15, min: 16 * 1024, max: 16 * 1024 * 1024, window: 16 }),
+        ],
+        any::<u32>(),
+        2_500_000u32..=5_000_000,
+        prop_oneof![Just(Comp::None), Just(Comp::Brotli(1)), Just(Comp::Zstd(1))],
+        prop_oneof![Just(Path2::CliCli), Just(Path2::CliStdinCli), Just(Path2::CliHttpCli), Just(Path2::LibCli)],
+        any::<bool>(),
+    )
+        .prop_map(|(chunker, seed, n, comp, path, constant_run)| {
+            // a long run of a constant non-zero byte is never cut by the rolling hash: one chunk of several MiB
+            let source = if constant_run { vec![Seg::Random { n: 70_000, seed }, Seg::Const { b: 0xff, n }, Seg::Random { n: 50_000, seed: seed ^ 9 }] } else { vec![Seg::Random { n, seed }, Seg::Random { n: n / 2, seed: seed ^ 5 }] };
+            L2Case { source, cfg: ArchCfg { chunker, hash_len: 64, comp, buffers: 4 }, path, delays: vec![], clone_buffers: 4, verify_output: false }
+        })
+}
+
 impl Prop for C01 {
     fn id(&self) -> &'static str {
         "C01"
@@ -440,6 +469,7 @@ impl Prop for C01 {
         cx.run_prop("heavy", t.pick(48, 1500), l1_heavy_strategy(), run_l1);
         cx.run_prop("l1big", t.pick(32, 600), l1_big_strategy(t.pick(1_300_000, 2_800_000)), run_l1);
         cx.run_prop("l2", t.pick(1200, 12000), l2_strategy(), run_l2);
+        cx.run_prop("l2big", t.pick(16, 400), l2_big_strategy(), run_l2);
         let dir = worker_dir("C01");
         let _ = std::fs::remove_dir_all(dir);
     }
